@@ -20,6 +20,8 @@ Post(p) ==
     /\ {<<i, reqs'[i]>> : i \in DOMAIN reqs'} = ToSet(p.reqs)
     /\ srv' = ToSet(p.srv)
     /\ \A r \in Reqs : st'[r] = p.st[r] /\ rid'[r] = p.rid[r] /\ got'[r] = ToSet(p.got[r]) /\ errs'[r] = p.errs[r]
+    /\ \A r \in Reqs : pages'[r] = p.pages[r] /\ cperr'[r] = p.cperr[r]
+    /\ {<<i, cps'[i]>> : i \in DOMAIN cps'} = ToSet(p.cps)
     /\ defunct' = p.defunct
     /\ closed' = p.closed
 
@@ -33,6 +35,7 @@ TraceNext ==
        /\ \/ e.e = "Borrow"      /\ Borrow(e.r)
           \/ e.e = "Send"        /\ Send(e.r)
           \/ e.e = "Respond"     /\ Respond(e.id, e.q)
+          \/ e.e = "Page"        /\ RespondPage(e.id, e.q, e.last)
           \/ e.e = "Timeout"     /\ Timeout(e.r)
           \/ e.e = "SocketError" /\ SocketError
           \/ e.e = "Close"       /\ Close
